@@ -1,4 +1,6 @@
 import GnarkVerif.Model.PointCodec
+import GnarkVerif.Model.PointCodecComp
+import GnarkVerif.Model.SigParams
 import GnarkVerif.Gen.Fields
 /-
 C07 — concrete instances of the point codec model (coordinate fields Fp, Fp², Fp⁴ of the ten curve packages with a
@@ -354,6 +356,111 @@ def streamOp (E : Env α β) (hasG2 full : Bool) (args : List String) : String :
       " ".intercalate (out ++ ["n=" ++ toHex n ++ " c=" ++ toHex n])
   | _ => "bad-op"
 
+/-! ## composite objects (`cdec` / `cenc`) -/
+
+/-- base-field words in `kzg.VerifyingKey.Lines` = 2·2·(number of lines)·2·(degree of the coefficient field):
+66 lines over Fp² (bn254), 63 over Fp² (bls12), 32 over Fp⁴ (bls24), 158 / 189 over Fp (bw6) -/
+def linesWords (cname : String) : Nat :=
+  match cname with
+  | "bn254" => 8 * 66 * 2 | "bls12-377" => 8 * 63 * 2 | "bls12-381" => 8 * 63 * 2
+  | "bls24-315" => 8 * 32 * 4 | "bls24-317" => 8 * 32 * 4 | "bw6-633" => 8 * 158 | "bw6-761" => 8 * 189
+  | _ => 0
+
+/-- parts of a composite kind, whether line coefficients follow, whether the two slices must have equal lengths -/
+def compKind (kind : String) : Option (List Part × Bool × Bool) :=
+  match kind with
+  | "srs" => some ([⟨true, [.g1s]⟩, ⟨true, [.g2, .g2, .g1]⟩], true, false)
+  | "srsu" => some ([⟨false, [.g1s]⟩, ⟨true, [.g2, .g2, .g1]⟩], true, false)
+  | "kpk" => some ([⟨true, [.g1s]⟩], false, false)
+  | "kpku" => some ([⟨false, [.g1s]⟩], false, false)
+  | "kvk" => some ([⟨true, [.g2, .g2, .g1]⟩], true, false)
+  | "ppk" => some ([⟨true, [.g1s, .g1s]⟩], false, true)
+  | "pvk" => some ([⟨true, [.g2, .g2]⟩], false, false)
+  | "pvku" => some ([⟨false, [.g2, .g2]⟩], false, false)
+  | _ => none
+
+def mix64 (x : UInt64) : UInt64 :=
+  let z := x + 0x9e3779b97f4a7c15
+  let z := (z ^^^ (z >>> 30)) * 0xbf58476d1ce4e5b9
+  let z := (z ^^^ (z >>> 27)) * 0x94d049bb133111eb
+  z ^^^ (z >>> 31)
+
+/-- synthetic canonical line coefficients (top word zero), the same function as `c07SynthLines` of the harness: a
+short spelling of a long block inside an op line; `be`: big-endian elements (BW6), the zero word comes first -/
+def synthLines (be : Bool) (limbs : Nat) (seed : UInt64) (n : Nat) : List UInt8 :=
+  (List.range n).flatMap (fun i => (List.range limbs).flatMap (fun j =>
+    if (if be then j == 0 else j + 1 == limbs) then List.replicate 8 0 else putBE 8 (mix64 (seed + UInt64.ofNat (i * limbs + j))).toNat))
+
+/-- `<hex>_Z<seed>.<count>_<hex>…` -/
+def parseStream (be : Bool) (limbs : Nat) (s : String) : List UInt8 :=
+  ((s.splitOn "_").map (fun t =>
+    if t.startsWith "Z" then
+      match (t.drop 1).toString.splitOn "." with
+      | [a, b] => synthLines be limbs (UInt64.ofNat (parseHexD a)) (parseHexD b)
+      | _ => []
+    else parseBytes t)).flatten
+
+/-- ReadFrom of a composite kind: values, line bytes, error text, bytes consumed -/
+def compRead (E : Env α β) (kind : String) (be : Bool) (q fb words : Nat) (bs : List UInt8) :
+    Option (List (Val α β) × List UInt8 × Option String × Nat) :=
+  match compKind kind with
+  | none => none
+  | some (ps, hasLines, eqLen) =>
+    match readComposite E ps be q fb (if hasLines then words else 0) bs with
+    | (vs, ls, some e, n) => some (vs, ls, some e.str, n)
+    | (vs, ls, none, n) =>
+      match eqLen, vs with
+      | true, [.g1s a, .g1s b] => if a.length == b.length then some (vs, ls, none, n) else some (vs, ls, some "err:len", n)
+      | _, _ => some (vs, ls, none, n)
+
+def compOp (E : Env α β) (be : Bool) (q fb words : Nat) (args : List String) : String :=
+  let limbs := fb / 8
+  match args with
+  | ["cdec", kind, _chunk, hex] =>
+    -- a history `A>B…` on ONE object: by value the answer is that of the last stream
+    match compRead E kind be q fb words (parseStream be limbs ((hex.splitOn ">").getLast?.getD "-")) with
+    | none => "bad-op"
+    | some (_, _, some e, n) => e ++ " n=" ++ toHex n ++ " c=" ++ toHex n
+    | some (vs, ls, none, n) =>
+      "ok n=" ++ toHex n ++ " c=" ++ toHex n ++ " re=" ++ bytesToHex (Sha256.hash (compBytes E true vs ls))
+  | ["cenc", kind, raw, buds, hex] =>
+    match compRead E kind be q fb words (parseStream be limbs hex) with
+    | some (vs, ls, none, _) =>
+      let r := compWriteTo E (raw == "1") (parse1 buds) vs ls
+      let tail := "w=" ++ toHex r.1.length ++ " " ++ bytesToHex (Sha256.hash r.1)
+      if r.2.1 then "err " ++ tail else "ok n=" ++ toHex r.1.length ++ " " ++ tail
+    | _ => "bad-op"
+  | _ => "bad-op"
+
+/-! ## twisted-Edwards point codec (`ted`) -/
+
+/-- `PointAffine.SetBytes` as the property demands it: a canonical ordinate (below q), an abscissa exists
+(`(1−y²)/(a−d·y²)` is a square), the point is on the curve, no sign bit on `x = 0` — then and only then the string is
+accepted, and it is the `Bytes` of the point it denotes (`Sig.EdParams.compress`) -/
+def tedDecode (P : Sig.EdParams) (buf : List UInt8) : Except String ((Nat × Nat) × Nat) :=
+  if buf.length < P.size then .error "err:short" else
+  let y := P.yRaw buf
+  if ¬ y < P.q then .error "err:noncanon" else
+  match Sig.sqrtF P.q (P.ratio y) with
+  | none => .error "err:nosqrt"
+  | some _ =>
+    let X := P.decompress (Sig.sqrtF P.q) buf
+    if ¬ P.onCurve X then .error "err:offcurve"
+    else if X.1 == 0 && P.signBit buf then .error "err:sign"
+    else .ok (X, P.size)
+
+def tedOp (P : Sig.EdParams) (args : List String) : String :=
+  match args with
+  | ["enc", pt] =>
+    match pt.splitOn ";" with
+    | [x, y] => bytesToHex (P.compress (parseHexD x, parseHexD y))
+    | _ => "bad-op"
+  | ["dec", hex] =>
+    match tedDecode P (parseBytes hex) with
+    | .error e => e
+    | .ok (X, n) => "ok " ++ toHex X.1 ++ ";" ++ toHex X.2 ++ " " ++ toHex n
+  | _ => "bad-op"
+
 def layoutNum : Layout → Nat | .raw => 0 | .two => 2 | .three => 3
 
 def paramsLine (d : CurveDesc) : String :=
@@ -371,6 +478,10 @@ def mkEnv (d : CurveDesc) (C2 : Codec β) : Env Nat β :=
 /-- `C07 <op> <curve> …` -/
 def handle (args : List String) : String :=
   match args with
+  | "ted" :: inst :: rest =>
+    match SigParams.edCurves.find? (·.name == inst) with
+    | none => "bad-op"
+    | some P => tedOp P rest
   | op :: cname :: rest =>
     match curves.find? (·.name == cname) with
     | none => "bad-op"
@@ -387,6 +498,14 @@ def handle (args : List String) : String :=
           | .e4 => groupOp d.codecE4 (op :: more)
         | _ => "bad-op"
       else if !d.stream then "bad-op"
+      else if op == "cdec" || op == "cenc" then
+        let w := linesWords d.name
+        if w == 0 then "bad-op" else
+        match d.g2 with
+        | .none => "bad-op"
+        | .fp => compOp (mkEnv d d.codecFp2) true d.p d.fpC.bytes w (op :: rest)
+        | .e2 => compOp (mkEnv d d.codecE2) false d.p d.fpC.bytes w (op :: rest)
+        | .e4 => compOp (mkEnv d d.codecE4) false d.p d.fpC.bytes w (op :: rest)
       else
         match d.g2 with
         | .none => streamOp (mkEnv d d.codec1) false d.full (op :: rest)
